@@ -1952,7 +1952,7 @@ ATTRS = ('isBc', 'isUnknown', 'ids', 'unknownIndices', 'bcIndices', 'dofToUnknow
 def observe(cfg, dm, model):
     """every attribute and method result the goals speak about, as plain numpy values"""
     import jax.numpy as jnp
-    conv = to_numpy if model else (lambda a: onp.asarray(a) if not isinstance(a, int) else a)
+    conv = to_numpy if model else (lambda a: onp.array(a) if not isinstance(a, int) else a)      # copies: later calls may mutate the manager's arrays
     out = {a: conv(getattr(dm, a)) for a in ATTRS}
     out['fieldShape'] = tuple(dm.fieldShape)
     out['bc_size'], out['unknown_size'] = conv(dm.get_bc_size()), conv(dm.get_unknown_size())
